@@ -34,6 +34,7 @@ func checkC08(c *Ctx, r *Report) {
 	}
 	c08Dispatch(c, r, a)
 	c08Cond(c, r, a)
+	c08Consist(c, r, a)
 	c08Meta(c, r)
 	c08Bind(c, r)
 }
@@ -123,6 +124,93 @@ func c08Dispatch(c *Ctx, r *Report, a *Anchors) {
 		if !abstractSeen[k] {
 			r.undecided("C08.DISPATCH", fmt.Sprintf("%s: abstract arm *%s", fnName(fn), k), fn.Pos(), "no call to the selection-set resolver found under this arm")
 		}
+	}
+}
+
+// interfaceRetyped reports where a value behind an interface-typed field has its container type replaced by
+// something other than the declared interface before its selections are walked: in the dispatcher's
+// *Interface arm, or inside the selection-set resolver itself.
+func (c *Ctx) interfaceRetyped(a *Anchors) (where []ssa.CallInstruction) {
+	typeParam := func(fn *ssa.Function) *ssa.Parameter {
+		for _, p := range fn.Params {
+			if c.isNamed(p.Type(), "Type") {
+				return p
+			}
+		}
+		return nil
+	}
+	isStatic := func(v ssa.Value, tP *ssa.Parameter) bool {
+		v = stripIface(v)
+		if v == ssa.Value(tP) {
+			return true
+		}
+		if ta, ok := v.(*ssa.TypeAssert); ok && stripIface(ta.X) == ssa.Value(tP) {
+			return true
+		}
+		if ex, ok := v.(*ssa.Extract); ok {
+			if ta, ok := ex.Tuple.(*ssa.TypeAssert); ok && stripIface(ta.X) == ssa.Value(tP) {
+				return true
+			}
+		}
+		return false
+	}
+	// dispatcher: calls of the selection-set resolver under the *Interface arm
+	if tP := typeParam(a.dispatch); tP != nil {
+		for _, ci := range callsIn(a.dispatch) {
+			if ci.Common().StaticCallee() != a.fieldSels {
+				continue
+			}
+			isIface := false
+			for _, k := range caseTypes(ci.Block(), tP) {
+				if derefNamed(k) == "Interface" {
+					isIface = true
+				}
+			}
+			for _, f := range assertFacts(ci.Block()) {
+				if f.holds && stripIface(f.x) == ssa.Value(tP) && derefNamed(f.t) == "Interface" {
+					isIface = true
+				}
+			}
+			if !isIface {
+				continue
+			}
+			for _, arg := range ci.Common().Args {
+				if c.isNamed(arg.Type(), "Type") && !isStatic(arg, tP) {
+					where = append(where, ci)
+				}
+			}
+		}
+	}
+	// selection-set resolver: the type handed to the walker
+	if tP := typeParam(a.fieldSels); tP != nil && a.walker != nil {
+		for _, ci := range callsIn(a.fieldSels) {
+			if ci.Common().StaticCallee() != a.walker {
+				continue
+			}
+			for _, arg := range ci.Common().Args {
+				if c.isNamed(arg.Type(), "Type") && !isStatic(arg, tP) {
+					where = append(where, ci)
+				}
+			}
+		}
+	}
+	return
+}
+
+// c08Consist: the two sites cooperate. Once interface-typed values are walked as their concrete object type,
+// an identity-only applicability test no longer lets a fragment on the interface itself apply.
+func c08Consist(c *Ctx, r *Report, a *Anchors) {
+	r.rule("C08.CONSIST", "if values behind an interface-typed field are walked with a container type other than the declared interface, both fragment applicability tests consult the type relation")
+	ret := c.interfaceRetyped(a)
+	_, relI := c.condTests(a.inline)
+	_, relS := c.condTests(a.spread)
+	if len(ret) == 0 {
+		r.check("C08.CONSIST", "interface-typed values keep the declared container type, or fragment tests are relation-aware", a.dispatch.Pos(), true, "no re-typing site")
+		return
+	}
+	for i, ci := range ret {
+		r.check("C08.CONSIST", fmt.Sprintf("%s: re-typing site #%d is matched by relation-aware fragment tests", fnName(ci.Parent()), i+1), ci.Pos(), relI && relS,
+			"values behind an interface-typed field are walked as their concrete object type here, but fragments still apply only when their condition is identical to the container: `... on <the interface>` (inline or named) now contributes nothing although every value implements it")
 	}
 }
 
